@@ -34,9 +34,9 @@ from harness.core import Ctx, Driver, VERIF
 from harness import lib_cm as cm
 from harness import lib_cm14 as c14
 
-PROPS = 'XsVerif.Props.C14'
+PROPS = ['XsVerif.Props.C14', 'XsVerif.Props.C14ElemType']
 AUDIT = 'XsVerif.Audit.C14'
-LEAN_TARGETS = ['XsVerif.Props.C14', 'drv_c14']
+LEAN_TARGETS = ['XsVerif.Props.C14', 'XsVerif.Props.C14ElemType', 'drv_c14']
 LEANCHECK = ['XsVerif.Model.Incl', 'XsVerif.Lemmas.Incl', 'XsVerif.Model.Restriction', 'XsVerif.Model.Facets',
              'XsVerif.Lemmas.Facets', 'XsVerif.Model.AttrRestriction', 'XsVerif.Lemmas.AttrRestriction',
              'XsVerif.Props.C14']
@@ -1030,6 +1030,226 @@ def witness_choice_sum(ctx: Ctx) -> None:
         ctx.notes.append(f'elem_choice_sum_counterexample: accepted by the build (valid_d={vd}, valid_b={vb})')
 
 
+# ---------------------------------------------------------------- element-type clause: re-typed child element
+# A complexContent restriction re-declares the child `item` with ANOTHER named complex type of a seeded forest of
+# types (roots, derived by restriction, derived by extension, chains of 2+, unrelated).  Model = `derivedBy`
+# of lean/XsVerif/Props/C14ElemType.lean (python mirror below): the pair is acceptable iff the type of the
+# restricting element reaches the base element's type by restriction steps only (elem_type_clause_narrows);
+# every ACCEPTED pair is judged by instances: each content valid for the new child type, put in one `item`, must be
+# valid for the base type whenever it is valid for the restricted type.
+ET_NAMES = 'abcdefgh'
+XS = 'http://www.w3.org/2001/XMLSchema'
+
+
+def et_pool(rng, n: int) -> list[dict]:
+    types: list[dict] = []
+    for k in range(n):
+        if k == 0 or rng.random() < 0.2:
+            m = rng.choice([1, 2])
+            parts = []
+            for nm in ET_NAMES[:m]:
+                lo = rng.choice([0, 1, 1])
+                parts.append((nm, lo, rng.choice([max(lo, 1), 2])))
+            types.append({'base': None, 'meth': None, 'parts': parts, 'used': m})
+            continue
+        p = rng.randrange(k)
+        bp = types[p]['parts']
+        if rng.random() < 0.5 or types[p]['used'] >= len(ET_NAMES):
+            parts = []
+            for nm, lo, hi in bp:
+                lo2 = rng.randint(lo, hi)
+                hi2 = rng.randint(lo2, hi)
+                if hi2 > 0:
+                    parts.append((nm, lo2, hi2))
+            if not parts:
+                parts = [(bp[0][0], bp[0][1], max(1, bp[0][1]))]
+            types.append({'base': p, 'meth': 'restriction', 'parts': parts, 'used': types[p]['used']})
+        else:
+            lo = rng.choice([0, 1, 1])
+            new = (ET_NAMES[types[p]['used']], lo, rng.choice([max(lo, 1), 2]))
+            types.append({'base': p, 'meth': 'extension', 'parts': list(bp) + [new], 'new': new,
+                          'used': types[p]['used'] + 1})
+    return types
+
+
+def et_derived_by(types: list[dict], d: int, b: int, admit_ext: bool = False) -> bool:
+    """mirror of C14ElemType.derivedBy"""
+    while True:
+        if d == b:
+            return True
+        t = types[d]
+        if t['base'] is None or not (t['meth'] == 'restriction' or admit_ext):
+            return False
+        d = t['base']
+
+
+def et_chain_kind(types: list[dict], d: int, b: int) -> str:
+    meths = []
+    while d != b:
+        if types[d]['base'] is None:
+            return 'unrelated'
+        meths.append(types[d]['meth'])
+        d = types[d]['base']
+    if not meths:
+        return 'same'
+    return 'restriction-chain' if set(meths) == {'restriction'} else \
+        'extension-chain' if set(meths) == {'extension'} else 'mixed-chain'
+
+
+def et_el(nm: str, lo: int, hi: Any, typ: str = 'xs:string') -> str:
+    return f'<xs:element name="{nm}" type="{typ}" minOccurs="{lo}" maxOccurs="{hi}"/>'
+
+
+def et_schema_text(types: list[dict], bocc: tuple, docc: tuple, sibling: bool) -> str:
+    out = [f'<xs:schema xmlns:xs="{XS}">']
+    for k, t in enumerate(types):
+        if t['base'] is None:
+            out.append(f'<xs:complexType name="T{k}"><xs:sequence>' + ''.join(et_el(*q) for q in t['parts']) +
+                       '</xs:sequence></xs:complexType>')
+        else:
+            body = t['parts'] if t['meth'] == 'restriction' else [t['new']]
+            out.append(f'<xs:complexType name="T{k}"><xs:complexContent><xs:{t["meth"]} base="T{t["base"]}">'
+                       '<xs:sequence>' + ''.join(et_el(*q) for q in body) +
+                       f'</xs:sequence></xs:{t["meth"]}></xs:complexContent></xs:complexType>')
+    sib = et_el('x', 0, 1) if sibling else ''
+    for i in range(len(types)):
+        out.append(f'<xs:complexType name="B{i}"><xs:sequence>{sib}{et_el("item", bocc[0], bocc[1], f"T{i}")}'
+                   f'</xs:sequence></xs:complexType><xs:element name="eb{i}" type="B{i}"/>')
+        for j in range(len(types)):
+            out.append(f'<xs:complexType name="D{i}_{j}"><xs:complexContent><xs:restriction base="B{i}"><xs:sequence>'
+                       f'{et_el("item", docc[0], docc[1], f"T{j}")}</xs:sequence></xs:restriction></xs:complexContent>'
+                       f'</xs:complexType><xs:element name="ed{i}_{j}" type="D{i}_{j}"/>')
+    out.append('</xs:schema>')
+    return '\n'.join(out)
+
+
+def et_words(parts: list[tuple], cap: int = 60) -> list[list[str]]:
+    import itertools
+    ws = []
+    for counts in itertools.product(*[range(lo, hi + 1) for _, lo, hi in parts]):
+        ws.append([nm for (nm, _, _), c in zip(parts, counts) for _ in range(c)])
+        if len(ws) >= cap:
+            break
+    return ws
+
+
+def et_instance(root: str, word: list[str], items: int = 1) -> Any:
+    import xml.etree.ElementTree as ET
+    r = ET.Element(root)
+    for _ in range(items):
+        it = ET.SubElement(r, 'item')
+        for nm in word:
+            ET.SubElement(it, nm).text = 'x'
+    return r
+
+
+def et_check(ctx: Ctx, v11: bool, types: list[dict], bocc: tuple, docc: tuple, sibling: bool,
+             only: Optional[tuple] = None, verbose: bool = False) -> int:
+    import xmlschema
+    cls = xmlschema.XMLSchema11 if v11 else xmlschema.XMLSchema10
+    schema = cls(et_schema_text(types, bocc, docc, sibling), validation='lax')
+    ok_t = []
+    for k, t in enumerate(types):
+        ok_t.append(type_errors(schema.types[f'T{k}']) == (0, 0, 0) and (t['base'] is None or ok_t[t['base']]))
+    bad = 0
+    for i in range(len(types)):
+        for j in range(len(types)):
+            if only is not None and (i, j) != only:
+                continue
+            case = {'eltype': {'types': types, 'base_occurs': list(bocc), 'derived_occurs': list(docc), 'sibling': sibling},
+                    'v': '1.1' if v11 else '1.0', 'base_child_type': i, 'restricted_child_type': j,
+                    'base': f'sequence({"x?, " if sibling else ""}item:T{i}{{{bocc[0]},{bocc[1]}}})',
+                    'derived': f'sequence(item:T{j}{{{docc[0]},{docc[1]}}})'}
+            if not (ok_t[i] and ok_t[j]) or type_errors(schema.types[f'B{i}']) != (0, 0, 0):
+                ctx.count('eltype:pool-type-refused')
+                continue
+            D = schema.types[f'D{i}_{j}']
+            accepted = type_errors(D) == (0, 0, 0)
+            model = et_derived_by(types, j, i)
+            kind = et_chain_kind(types, j, i)
+            case['chain'] = kind
+            # finding C14-F9: XsdComplexType.is_derived(other, 'restriction') answers "SOME step of the chain is a
+            # restriction", so a chain with both extension and restriction steps passes the element-type clause.  The
+            # mechanism predicts `accepted` for every mixed chain; a widening exhibited on such a pair is the listed
+            # finding, anything else (a refusal is what the rule demands) is judged as usual.
+            mixed = kind == 'mixed-chain'
+            ctx.case(case, i != j, tag='element-type-clause')
+            ctx.traces += 1
+            ctx.count(f'eltype:{"accepted" if accepted else "refused"}:{kind}')
+            if verbose:
+                print(f'implementation: D{i}_{j} accepted = {accepted} (errors {[str(e.message)[:80] for e in D.errors]});'
+                      f' model derivedBy(restriction steps only) = {model}')
+            if mixed and accepted:
+                ctx.count('eltype:mixed-chain-accepted-as-C14-F9-predicts')
+            elif accepted != model:
+                ctx.mismatch('element-type clause: schema verdict vs derivedBy (restriction chain)', case,
+                             {'accepted': accepted}, {'derivedBy': model})
+            if not accepted:
+                continue
+            ed, eb = schema.elements[f'ed{i}_{j}'], schema.elements[f'eb{i}']
+            for w in et_words(types[j]['parts']):
+                for items in ([1] if docc[1] == 1 else [1, 2]):
+                    if items < docc[0]:
+                        continue
+                    vd = ed.is_valid(et_instance(f'ed{i}_{j}', w, items))
+                    vb = eb.is_valid(et_instance(f'eb{i}', w, items))
+                    ctx.count('eltype:instances')
+                    if verbose and vd and not vb:
+                        print(f'item children {w} x{items}: valid for derived = {vd}, valid for base = {vb}')
+                    if vd and not vb and mixed and only is None:
+                        ctx.known_hit('C14-F9', case, {'item_children': w, 'items': items, 'chain': kind})
+                        break
+                    if vd and not vb:
+                        bad += 1
+                        ctx.failure('accepted restriction (re-typed child element) admits an instance that the base type rejects',
+                                    case, {'item_children': w, 'items': items, 'valid_for_derived': vd,
+                                           'valid_for_base': vb, 'model_accepts': model})
+                        break
+                else:
+                    continue
+                break
+    return bad
+
+
+def eltype_family(ctx: Ctx) -> None:
+    rng = ctx.rng
+    fixed = [{'base': None, 'meth': None, 'parts': [('a', 1, 2), ('b', 0, 1)], 'used': 2},
+             {'base': 0, 'meth': 'restriction', 'parts': [('a', 1, 2)], 'used': 2},
+             {'base': 0, 'meth': 'extension', 'parts': [('a', 1, 2), ('b', 0, 1), ('c', 1, 1)], 'new': ('c', 1, 1), 'used': 3},
+             {'base': 1, 'meth': 'restriction', 'parts': [('a', 1, 1)], 'used': 2},
+             {'base': 2, 'meth': 'restriction', 'parts': [('a', 1, 1), ('c', 1, 1)], 'used': 3},
+             {'base': 1, 'meth': 'extension', 'parts': [('a', 1, 2), ('c', 0, 1)], 'new': ('c', 0, 1), 'used': 3},
+             {'base': None, 'meth': None, 'parts': [('a', 1, 1)], 'used': 1}]
+    for v11 in (False, True):
+        pools = [(fixed, (1, 3), (1, 2), False)]
+        for _ in range(ctx.pick(30, 300)):
+            pools.append((et_pool(rng, rng.randint(3, 6)), rng.choice([(1, 3), (0, 2), (1, 'unbounded')]),
+                          rng.choice([(1, 1), (1, 2)]), rng.random() < 0.4))
+        for types, bocc, docc, sib in pools:
+            if search_over() or ctx.time_left() < 60 or len(ctx.failures) >= 3:
+                return
+            try:
+                et_check(ctx, v11, types, bocc, docc, sib)
+            except Exception as e:
+                ctx.failure('schema build raised on a re-typed child element restriction',
+                            {'v': '1.1' if v11 else '1.0', 'eltype': {'types': types, 'base_occurs': list(bocc),
+                                                                      'derived_occurs': list(docc), 'sibling': sib}},
+                            repr(e)[:300])
+
+
+def witness_eltype(ctx: Ctx) -> None:
+    """elem_type_extension_counterexample on the real code: item:T1 (T1 extends T0 with b) must be refused against
+    item:T0; an acceptance is a failing input (item(a b) valid for the restricted type only)"""
+    types = [{'base': None, 'meth': None, 'parts': [('a', 1, 1)], 'used': 1},
+             {'base': 0, 'meth': 'extension', 'parts': [('a', 1, 1), ('b', 1, 1)], 'new': ('b', 1, 1), 'used': 2},
+             {'base': 0, 'meth': 'restriction', 'parts': [('a', 1, 1)], 'used': 1}]
+    for v11 in (False, True):
+        n0 = len(ctx.mismatches)
+        bad = et_check(ctx, v11, types, (1, 3), (1, 2), False, only=(0, 1))
+        if not bad and len(ctx.mismatches) == n0:
+            ctx.count('witness-reconfirmed:elem_type_extension_counterexample(refused)')
+
+
 def witness_leftover(ctx: Ctx) -> None:
     """single_branch_choice_over_sequence_refused on the real code (XSD 1.0): choice(a) must be refused against
     sequence(a, b{1,2}); an acceptance is a failing input (child `a` valid for the derived type only)"""
@@ -1064,6 +1284,8 @@ def run(ctx: Ctx, driver_ok: bool) -> None:
     witnesses2(ctx)
     witness_choice_sum(ctx)
     witness_leftover(ctx)
+    witness_eltype(ctx)
+    eltype_family(ctx)
     open_content_family(ctx, drv)
     witness_oc(ctx)
     if drv is None:
@@ -1161,6 +1383,14 @@ def replay(ctx: Ctx, obj: dict) -> int:
         r = ParticleMixin(lo, hi).has_occurs_restriction(ParticleMixin(olo, ohi))
         print('implementation: has_occurs_restriction =', r)
         return 1 if r else 0
+    if 'eltype' in case:                  # re-typed child element
+        et = case['eltype']
+        types = [dict(t, parts=[tuple(q) for q in t['parts']], **({'new': tuple(t['new'])} if t.get('new') else {}))
+                 for t in et['types']]
+        bad = et_check(ctx, case['v'] == '1.1', types, tuple(et['base_occurs']), tuple(et['derived_occurs']),
+                       et['sibling'], only=(case['base_child_type'], case['restricted_child_type']), verbose=True)
+        print('judgement:', 'VIOLATION' if bad else 'no violation on this input')
+        return 1 if bad else 0
     if 'steps' in case:                   # facet chain
         import xmlschema
         from harness import lib_c14facets as fx
